@@ -506,6 +506,43 @@ fn run_instantiate_probes(cx: &mut Ctx) -> Result<(), String> {
     Ok(())
 }
 
+/// "the minter admin (the collection creator)": right after creation, with every secondary
+/// address a distinct account, the minter's Config.admin and the collection's creator are
+/// the creator named in the collection parameters - not the payer, the payment address,
+/// the royalty address or the factory.
+fn run_creation_checks(cx: &mut Ctx) -> Result<(), String> {
+    for mk in MinterKind::ALL {
+        let w = build(CK::Minter(mk), "fresh")?;
+        let minter = w.target.clone();
+        let coll = Addr::unchecked(w.addr("collection"));
+        let row = RowId { ck: CK::Minter(mk), state: "fresh".into(), kind: "create_minter".into(), role: Some("payer".into()) };
+        cx.rep.evaluations += 1;
+        cx.nontrivial.insert(format!("{}|creation-check", mk.name()));
+        let cfg = query_json(&w.app, &minter, &json!({"config": {}})).unwrap_or(Value::Null);
+        if mk != MinterKind::Base {
+            let admin = cfg.get("admin").and_then(|a| a.as_str()).unwrap_or("<none>").to_string();
+            cx.rep.bump(&format!("{}|creation|config-admin-is-creator|{}", mk.name(), admin == CREATOR));
+            if admin != CREATOR {
+                cx.violation(
+                    format!("C05:{}:admin-is-not-the-collection-creator", mk.name()),
+                    format!("{}: created by payer {} for creator {} with payment address {}: Config.admin is {}", mk.name(), PAYER, CREATOR, PAYADDR, admin),
+                    &row,
+                );
+            }
+        }
+        let ci = query_json(&w.app, &coll, &json!({"collection_info": {}})).unwrap_or(Value::Null);
+        let creator = ci.get("creator").and_then(|a| a.as_str()).unwrap_or("<none>").to_string();
+        if creator != CREATOR {
+            cx.violation(
+                format!("C05:{}:collection-creator-is-not-the-named-creator", mk.name()),
+                format!("{}: the collection created for creator {} (royalties to {}) answers creator = {}", mk.name(), CREATOR, ROYALTY, creator),
+                &row,
+            );
+        }
+    }
+    Ok(())
+}
+
 /// MsgMigrateContract as a row of the table: every contract with a migrate entry point,
 /// from states where governance has set non-default Status / Params, from stored cw2
 /// versions across the accepted range (and two refused pairs), sent by the wasm admin
@@ -594,9 +631,9 @@ fn run_migrate(cx: &mut Ctx, thorough: bool) -> Result<(), String> {
                 let acc = acc && mk != MinterKind::Base;
                 let label = format!("status={:03b} cw2=({}, {})", bits, other.clone().unwrap_or_else(|| name.clone()), ver);
                 let senders: Vec<(&str, String)> = if thorough || ver == "2.4.0" || ver == cur {
-                    vec![("stranger", "stranger".to_string()), ("buyer", "buyer1".to_string()), ("governance-account", GOV.to_string()), ("wasm-admin-creator", admin.clone())]
+                    vec![("stranger", "stranger".to_string()), ("buyer", "buyer1".to_string()), ("governance-account", GOV.to_string()), ("creator-minter-admin", CREATOR.to_string()), ("payment-address", PAYADDR.to_string()), ("wasm-admin-payer", admin.clone())]
                 } else {
-                    vec![("stranger", "stranger".to_string()), ("wasm-admin-creator", admin.clone())]
+                    vec![("creator-minter-admin", CREATOR.to_string()), ("wasm-admin-payer", admin.clone())]
                 };
                 for (role, sender) in senders {
                     set_cw2(&mut w.app, &minter, other.as_deref().unwrap_or(&name), &ver);
@@ -735,7 +772,7 @@ mod airdrop {
     /// vending minter + plain whitelist whose admin list holds the airdrop contract + the
     /// airdrop contract (which instantiates its whitelist-immutable of eligible eth addresses)
     pub fn build() -> Result<Drop, String> {
-        let mw = setup_minter_with(MinterKind::Vending, |_, _| {})?;
+        let mw = setup_minter_c05(MinterKind::Vending, |_, _| {})?;
         let mut app = mw.app;
         for a in ACCOUNTS {
             chain::mint_coins(&mut app, a, 1_000_000_000_000, NATIVE);
@@ -754,11 +791,11 @@ mod airdrop {
             app.instantiate_contract(wl_code, Addr::unchecked("creator"), &msg, &[coin(fee, NATIVE)], "wl", None).map_err(|e| format!("{:#}", e))?
         };
         exec_json(&mut app, "creator", &mw.minter, &json!({"set_whitelist": {"whitelist": wl}}), &[]).map_err(|e| format!("set_whitelist: {}", e))?;
-        let imsg = json!({"admin": "creator", "claim_msg_plaintext": PLAINTEXT, "airdrop_amount": "30000000",
+        let imsg = json!({"admin": "airadmin", "claim_msg_plaintext": PLAINTEXT, "airdrop_amount": "30000000",
             "addresses": [eth_addr], "whitelist_code_id": imm_code, "minter_address": mw.minter, "per_address_limit": 1});
         let air = {
             use cw_multi_test::Executor;
-            app.instantiate_contract(air_code, Addr::unchecked("creator"), &imsg, &[coin(100_000_000, NATIVE)], "airdrop", None)
+            app.instantiate_contract(air_code, Addr::unchecked("airadmin"), &imsg, &[coin(100_000_000, NATIVE)], "airdrop", None)
                 .map_err(|e| format!("airdrop instantiate: {:#}", e))?
         };
         if air.as_str() != airdrop_addr {
@@ -772,6 +809,8 @@ mod airdrop {
             target: air.clone(),
             roles: vec![
                 ("stranger".to_string(), "stranger".to_string()),
+                ("airdrop-admin".to_string(), "airadmin".to_string()),
+                ("minter-payment-address".to_string(), PAYADDR.to_string()),
                 ("creator".to_string(), "creator".to_string()),
                 ("minter-contract".to_string(), mw.minter.to_string()),
                 ("airdrop-itself".to_string(), air.to_string()),
@@ -997,6 +1036,7 @@ pub fn run(a: &Args) {
             (CK::Airdrop, _) => run_airdrop(&mut cx).map(|_| None),
             (_, "instantiate") => run_instantiate_probes(&mut cx).map(|_| None),
             (_, "migrate") => run_migrate(&mut cx, true).map(|_| None),
+            (_, "create_minter") if row.role.as_deref() == Some("payer") => run_creation_checks(&mut cx).map(|_| None),
             (ck, k) if k.starts_with("sudo_") => run_sudo_shaped(&mut cx, ck).map(|_| None),
             (ck, _) if row.state == "history" => run_history(&mut cx, &mut rng, ck, 60).map(|_| None),
             (ck, k) => run_row(&mut cx, ck, &row.state, k, true),
@@ -1062,6 +1102,9 @@ pub fn run(a: &Args) {
     // ---- (ii) instantiation
     if let Err(e) = run_instantiate_probes(&mut cx) {
         cx.rep.notes.push(format!("instantiate probes: {}", e));
+    }
+    if let Err(e) = run_creation_checks(&mut cx) {
+        cx.rep.notes.push(format!("creation checks: {}", e));
     }
     // ---- migrate, the other user message
     if let Err(e) = run_migrate(&mut cx, thorough) {
